@@ -707,5 +707,17 @@ func checkSliceCanon(p *Prog, r *Report) {
 			r.decide(sorted, "C10.set-equality", "checkSlice:compared-list:"+shorten(pathOf(side, 0)), p.pos(bo.Pos()), "compared after being sorted", "checkSlice compares a list element by element that was not sorted before (the other one was, or a sorted copy was made and the original is compared): equality of ID sets depends on the order in which the IDs are listed")
 		}
 	}
-	r.floor("elementwise comparisons in checkSlice", n, 1)
+	// or by membership: a binary search in one list for each element of the
+	// other - the searched list must have been sorted
+	for _, ins := range all {
+		c, ok := ins.(*ssa.Call)
+		if !ok || !calleeIs(c, "sort", "SearchStrings") || len(c.Common().Args) != 2 {
+			continue
+		}
+		n++
+		side := c.Common().Args[0]
+		sorted := oa.sortedBefore(side, c.Block(), c)
+		r.decide(sorted, "C10.set-equality", "checkSlice:searched-list:"+shorten(pathOf(side, 0)), p.pos(c.Pos()), "searched after being sorted", "checkSlice looks IDs up by binary search in a list that was not sorted before: equality of ID sets depends on the order in which the IDs are listed")
+	}
+	r.floor("elementwise comparisons (or sorted-membership tests) in checkSlice", n, 1)
 }
